@@ -3,6 +3,7 @@ package main
 // Evaluation of contract expressions to symbolic values in a given state.
 
 import (
+	"golang.org/x/tools/go/ssa"
 	"regexp"
 	"sync"
 	"fmt"
@@ -355,7 +356,7 @@ func (x *Exec) fieldOf(env *Env, base Value, name string, e *Expr) Value {
 		}
 		ref, root, stt := x.structPtr(st, b)
 		if ref == nil {
-			x.fail("selector .%s on non-struct pointer in %s", name, e)
+			x.fail("selector .%s on non-struct pointer (%#v) in %s", name, b, e)
 		}
 		for i := 0; i < stt.NumFields(); i++ {
 			if stt.Field(i).Name() == name {
@@ -703,6 +704,29 @@ func (x *Exec) evalCall(env *Env, e *Expr) Value {
 	fn := e.Args[0]
 	args := e.Args[1:]
 	if fn.Kind == "ident" {
+		// a function-typed parameter or local bound to a known function (see "instantiate"): the call is
+		// evaluated by running the (branch-free) body, e.g. node(ent) for node = (*entry).globalList
+		if fv, ok := env.Vars[fn.Name].(FuncV); ok && fv.Fn != nil {
+			vals := make([]Value, 0, len(args)+1)
+			if fv.Recv != nil {
+				vals = append(vals, fv.Recv)
+			}
+			vals = append(vals, fv.Bind...)
+			for _, a := range args {
+				vals = append(vals, x.materialize(env, x.eval(env, a)))
+			}
+			tmp := *st
+			tmp.Frame = &Frame{Fn: x.Fn, Regs: map[ssa.Value]Value{}}
+			x.specEval++
+			r, ok := x.runStraight(&tmp, fv.Fn, vals)
+			x.specEval--
+			if ok {
+				return r
+			}
+			x.fail("cannot evaluate the call of %s in %s (not a branch-free function)", fv.Fn, e)
+		}
+	}
+	if fn.Kind == "ident" {
 		switch fn.Name {
 		case "old":
 			if env.Old == nil {
@@ -905,6 +929,10 @@ func (x *Exec) evalCall(env *Env, e *Expr) Value {
 		case "closed":
 			v := x.asScalar(x.eval(env, args[0]), e)
 			return st.heapLoad(v.T, "chan", tyBool)
+		case "chancap":
+			// chancap(ch): the capacity the channel was made with
+			v := x.asScalar(x.eval(env, args[0]), e)
+			return st.heapLoad(v.T, "chancap", tyInt)
 		case "allocated":
 			v := x.asScalar(x.eval(env, args[0]), e)
 			return Scalar{And(ILt(IntC(0), v.T), ILe(v.T, st.allocBound())), tyBool}
